@@ -1165,6 +1165,15 @@ def replay(path: str) -> int:
             out = run_rule_alone(mods, data) if data.get("entry") == "rule" else mods["main"].format_code(data["source"])
         print("output now:", repr(out))
         print("line present:", line_present(out, data["line"]))
+    elif data.get("kind") == "node-range":
+        src, core = data["source"], mods["core"]
+        for node in ast.walk(ast.parse(src)):
+            if getattr(node, "end_lineno", None) is not None and type(node).__name__ == data["node"] \
+                    and list(node_first_last(node, src)) == [data["first"], data["last"]]:
+                r = core.get_charnos(node, src)
+                print("node lines %d..%d: get_charnos now %s (recorded range %s, handed over as a %s by %s); "
+                      "has_ignore_comment now: %s" % (data["first"], data["last"], tuple(r), data["range"], data["handed"],
+                                                      data["caller"], core.has_ignore_comment(src, r)))
     elif data.get("kind") == "recogniser":
         s = data["source"]
         print("impl now:", impl_case(mods, s, [tuple(r[0]) for r in data["impl_ranges"]], True))
